@@ -398,6 +398,15 @@ func (st *wstate) runLifetime(i int, l *scen.Lifetime) {
 		}
 		out.Stats.Decisions[i] = rep.Decisions
 		out.Stats.Probes["tasks_lifetime"]++
+		if l.Sched != nil {
+			out.Stats.Probes["strategy_"+l.Sched.Strategy]++
+			if len(l.Sched.Forced) > 0 {
+				out.Stats.Probes["forced_schedule_replayed"]++
+			}
+		}
+		if rep.Forcedmiss > 0 {
+			out.Stats.Probes["forced_decisions_not_enabled"] += rep.Forcedmiss
+		}
 		if l.Race {
 			out.Stats.Probes["race_lifetime"]++
 		}
